@@ -912,6 +912,38 @@ def _single_element_updates(func: ast.AST) -> int:
     return n
 
 
+def _slice_zero_lower(func: ast.AST) -> int:
+    """`xs[0:k]` is `xs[:k]`."""
+    n = 0
+    for x in list(_local_nodes(func)):
+        if isinstance(x, ast.Slice) and isinstance(x.lower, ast.Constant) and x.lower.value == 0 and type(x.lower.value) is int and x.step is None:
+            x.lower = None
+            n += 1
+    return n
+
+
+def _ifelse_assign_to_ifexp(func: ast.AST) -> int:
+    """`if c: x = A` / `else: x = B` (one plain name, nothing else in either arm) is `x = A if c else B`."""
+    n = 0
+    for blk in [b for node in [func] + list(_local_nodes(func)) for b in _blocks(node)]:
+        for j, st in enumerate(blk):
+            if not (isinstance(st, ast.If) and len(st.body) == 1 and len(st.orelse) == 1):
+                continue
+            a, b = st.body[0], st.orelse[0]
+            if not (isinstance(a, ast.Assign) and isinstance(b, ast.Assign) and len(a.targets) == 1 and len(b.targets) == 1
+                    and isinstance(a.targets[0], (ast.Name, ast.Attribute, ast.Subscript)) and ast.dump(a.targets[0]) == ast.dump(b.targets[0])):
+                continue
+            new = ast.Assign(targets=[a.targets[0]], value=ast.IfExp(test=st.test, body=a.value, orelse=b.value))
+            for x in ast.walk(new):
+                if not hasattr(x, "lineno"):
+                    ast.copy_location(x, st)
+            ast.copy_location(new, st)
+            ast.fix_missing_locations(new)
+            blk[j] = new
+            n += 1
+    return n
+
+
 METHOD_SIGNATURES: Dict[str, List[List[str]]] = {}
 
 
@@ -971,6 +1003,8 @@ def canonicalise(tree: ast.AST, props: Set[str]) -> int:
             cls_name = getattr(n, "_canon_cls", None)
             total += _single_element_updates(n)
             total += _keywords_to_positional(n)
+            total += _ifelse_assign_to_ifexp(n)
+            total += _slice_zero_lower(n)
             total += _map_arguments(n)
             total += _fold_aliases(n, props)
             total += _propagate_pure_locals(n, props, cls_name)
